@@ -123,15 +123,39 @@ Check read_correct : forall c fid f off len,
   psize (fst (pc_read c fid off len)) = psize c /\ files (fst (pc_read c fid off len)) = files c.
 Print Assumptions read_correct.
 
-(* every read of every history of reads / prefetches / invalidations on a fresh cache *)
+(* every read of every history of reads / prefetches / invalidations / in-place overwrites followed by the
+   explicit invalidation of the rewritten range, on a fresh cache, returns the file's bytes at that moment *)
 Theorem page_cache_history_correct : forall ps capbytes fs ops,
-  0 < ps ->
-  snd (pc_run (pc_new ps capbytes fs) ops) = map (expected fs) ops.
-Proof. exact (fun ps capbytes fs ops H => pc_run_spec ops (pc_new ps capbytes fs) H (pc_new_coherent ps capbytes fs)). Qed.
+  0 < ps -> ops_ok fs ops ->
+  snd (pc_run (pc_new ps capbytes fs) ops) = expected_run fs ops.
+Proof. exact (fun ps capbytes fs ops H Hok => pc_run_spec ops (pc_new ps capbytes fs) H (pc_new_coherent ps capbytes fs) Hok). Qed.
 Check page_cache_history_correct : forall ps capbytes fs ops,
-  0 < ps ->
-  snd (pc_run (pc_new ps capbytes fs) ops) = map (expected fs) ops.
+  0 < ps -> ops_ok fs ops ->
+  snd (pc_run (pc_new ps capbytes fs) ops) = expected_run fs ops.
 Print Assumptions page_cache_history_correct.
+Example page_cache_history_nontrivial :
+  let fs := fun g => if g =? 1 then Some [1; 2; 3; 4; 5; 6; 7; 8; 9; 10] else None in
+  let ops := [PRead 1 2 5; POverwrite 1 3 [40; 50]; PRead 1 2 5; PRead 1 8 9] in
+  ops_ok fs ops /\
+  snd (pc_run (pc_new 4 8 fs) ops) = [[3; 4; 5; 6; 7]; []; [3; 40; 50; 6; 7]; [9; 10]].
+Proof. split; [cbn; repeat split; intros f E; inversion E; cbn; lia|vm_compute; reflexivity]. Qed.
+
+(* after a file is rewritten in place and the rewritten range is invalidated explicitly, the cache is coherent
+   with the new contents (so by read_correct every later read returns the new bytes) *)
+Theorem overwrite_then_invalidate_coherent : forall c fid off data,
+  0 < psize c -> coherent c ->
+  (forall f, files c fid = Some f -> off + nlen data <= nlen f) ->
+  coherent (pc_overwrite c fid off data) /\
+  psize (pc_overwrite c fid off data) = psize c /\
+  files (pc_overwrite c fid off data) = fs_overwrite (files c) fid off data.
+Proof. exact overwrite_coherent_proof. Qed.
+Check overwrite_then_invalidate_coherent : forall c fid off data,
+  0 < psize c -> coherent c ->
+  (forall f, files c fid = Some f -> off + nlen data <= nlen f) ->
+  coherent (pc_overwrite c fid off data) /\
+  psize (pc_overwrite c fid off data) = psize c /\
+  files (pc_overwrite c fid off data) = fs_overwrite (files c) fid off data.
+Print Assumptions overwrite_then_invalidate_coherent.
 
 (* cached blob store over its virtual file id: the cache supplies nothing, get returns the wrapped store's bytes *)
 Theorem cached_get_is_inner_get : forall c vfid meta data,
